@@ -110,8 +110,16 @@ fn step(w: &mut World, op: &J, how: usize, rest: &[J]) -> Result<(), String> {
             w.created += 1;
             if sonic_rs::from_slice::<Value>(&text).is_ok() { return Err("a document the reference rejects was accepted".into()); }
         }
-        "new" => { let s = slot_ix(&op["s"]); w.slots[s] = Some(match op["what"].as_str().unwrap() { "arr" => sjson!([]), "obj" => sjson!({}), _ => sjson!(7) }); }
-        "build" => { let s = slot_ix(&op["s"]); w.slots[s] = Some(match op["what"].as_str().unwrap() { "obj1" => sjson!({"a": 8}), _ => sjson!([8, 9]) }); }
+        // every way the API offers to make such a value without parsing
+        "new" => { let s = slot_ix(&op["s"]); w.slots[s] = Some(match (op["what"].as_str().unwrap(), how % 4) {
+            ("arr", 0) => sjson!([]), ("arr", 1) => Value::new_array_with(0), ("arr", 2) => Value::new_array_with(5), ("arr", _) => sonic_rs::Array::new().into_value(),
+            ("obj", 0) => sjson!({}), ("obj", 1) => Value::new_object_with(0), ("obj", 2) => Value::new_object_with(5), ("obj", _) => sonic_rs::Object::new().into_value(),
+            (_, 0) => sjson!(7), (_, 1) => Value::new_u64(7), (_, 2) => Value::from(7u8), (_, _) => Value::new_i64(7) }); }
+        "build" => { let s = slot_ix(&op["s"]); w.slots[s] = Some(match (op["what"].as_str().unwrap(), how % 4) {
+            ("obj1", 0) => sjson!({"a": 8}), ("obj1", 1) => { let mut o = Value::new_object_with(1); o.insert("a", Value::new_u64(8)); o }
+            ("obj1", 2) => sonic_rs::object! {"a": 8}.into_value(), ("obj1", _) => { let mut o = sonic_rs::Object::new(); o.insert(&"a", 8); o.into_value() }
+            (_, 0) => sjson!([8, 9]), (_, 1) => sonic_rs::array![8, 9].into_value(), (_, 2) => Value::from(vec![8, 9]),
+            (_, _) => { let mut a = Value::new_array_with(2); a.append_value(Value::new_u64(8)); a.append_value(Value::new_i64(9)); a } }); }
         "clone" => {
             let (s, t) = (slot_ix(&op["s"]), slot_ix(&op["t"]));
             let p = ptr_of(&op["p"]);
@@ -141,6 +149,18 @@ fn step(w: &mut World, op: &J, how: usize, rest: &[J]) -> Result<(), String> {
             let tgt = nav(w.slots[s].as_mut().ok_or("probe: empty slot")?, &p, how).ok_or("probe: path does not resolve")?;
             let hit = if how % 2 == 0 { tgt.pointer_mut(e.iter()).is_some() } else { match &e[0] { PointerNode::Key(k) => tgt.get_mut(k.as_str()).is_some(), PointerNode::Index(i) => tgt.get_mut(*i).is_some() } };
             if hit { return Err("probe: a lookup the reference cannot resolve returned a value".into()); }
+        }
+        "split_off" => {
+            let (s, o) = (slot_ix(&op["s"]), slot_ix(&op["o"]));
+            let p = ptr_of(&op["p"]);
+            let i = op["i"].as_u64().unwrap() as usize;
+            let want_ok = op["ok"].as_bool().unwrap();
+            let r = { let tgt = nav(w.slots[s].as_mut().ok_or("split_off: empty slot")?, &p, how).ok_or("split_off: path does not resolve")?;
+                      let a = tgt.as_array_mut().ok_or("not an array")?; catch(move || a.split_off(i)) };
+            match r {
+                Ok(tail) => { if !want_ok { return Err("split_off: the reference rejects this call but the implementation accepted it".into()); } w.slots[o] = Some(tail.into_value()); }
+                Err(p) => { if want_ok { return Err(format!("split_off: panicked: {p}")); } }
+            }
         }
         "mut" => {
             let s = slot_ix(&op["s"]);
